@@ -29,6 +29,9 @@ INGROUP = [("TbfCellsContainer", "getElementFromSpacialIndex", "nbCells"), ("Tbf
 
 
 def is_empty_return(facts, r):
+    e = strip(kids(r)[0]) if kids(r) else None
+    if e is not None and e.get("k") in ("CXXUnresolvedConstructExpr", "CXXTemporaryObjectExpr", "CXXConstructExpr", "CXXScalarValueInitExpr", "InitListExpr") and not kids(e):
+        return True      # T(): value-initialised result, whatever T is spelled like
     t = facts.ntext(r)
     return "nullopt" in t or re.search(r"optional<[^;]*>\(\)\s*;?$", t.replace(" ", "")) is not None
 
@@ -204,6 +207,8 @@ class _Look:
                 return "q"
             if n.get("did") in self.pidx:
                 return "param%d" % self.pidx[n["did"]]
+            if n.get("did") in self.fm.range_vars:
+                return "each(%s)" % self.desc(self.fm.range_vars[n["did"]], depth + 1)
             i = self.local_init(n)
             if i is not None:
                 return self.desc(i, depth + 1)
@@ -498,7 +503,9 @@ def treelevel(facts, name, container_field, res):
         for k, ok in need.items():
             if not ok:
                 res.violation(R, f, fn["qname"], k.split(" (")[0] if k.startswith("group position") else k, s["l"][1], "a (group, position) pair is returned without the guard `%s`" % k)
-        if gcont is None or gcont.split("[")[0] != container_field:
+        if gcont is None:
+            raise AnalysisBroken("TbfTree::%s: the group returned at line %d does not come (recognisably) from a container of the tree: re-confirm by reading" % (name, s["l"][1]))
+        if gcont.split("[")[0] != container_field:
             res.violation(R, f, fn["qname"], "group-container", s["l"][1], "the group handed back does not come from the tree's '%s' (it comes from %s)" % (container_field, gcont))
             continue
         # ---- how the group was searched: lower_bound over the groups by last index, or over a directory of last indices
